@@ -5,12 +5,14 @@ def run(ctx):
     # design model: one-unit-pivot elimination steps with explicit formulas, all small complexes, all pivot sequences
     ctx.tlc_mc("MC_ChainRed", "MC_ChainRed.cfg", workers=8, timeout=1500)
     ctx.tlc_mc("MC_LinAlg", "MC_LinAlg.cfg", workers=1, coverage=False, timeout=900, cache=True)
+    # A: TLC enumerates every sequence of reducer calls (degree, Rows|Cols, One|AnyUnit|Weight) up to length 2 (thorough 3)
+    path, objs = ctx.tlc_gen("Gen_ChainRedSched", "Gen_ChainRedSched.thorough.cfg" if ctx.thorough else "Gen_ChainRedSched.quick.cfg", workers=1)
     trace = ctx.path("trace.ndjson")
-    summ, _, _ = ctx.yv("c08", "record", "--seed", ctx.seed, "--tier", ctx.tier, "--out", trace, timeout=3000)
+    summ, _, _ = ctx.yv("c08", "record", "--seed", ctx.seed, "--tier", ctx.tier, "--in", path, "--out", trace, timeout=3000)
     rec = summ["record"]
     r = ctx.tlc_trace("Trace_ChainRed", "Trace_ChainRed.cfg", trace, timeout=3000)
     ctx.trace_verdict(r, trace, "chain reduction")
-    ctx.cov["conformance"].append({"direction": "impl->spec", **rec, "accepted": r["accepted"]})
+    ctx.cov["conformance"].append({"direction": "spec->impl call sequences + impl->spec validation", **rec, "accepted": r["accepted"], "tlc_call_sequences": len(objs)})
     ctx.cov["evaluations"] += rec["events"]
     ctx.cov["distinct_nontrivial"] += rec["reduction_calls"]
     if r["accepted"]:
